@@ -146,6 +146,9 @@ pub struct RunOpts {
     pub log_events: bool,
     pub script: Option<Script>,
     pub plan_override: Option<Box<dyn FnOnce(&mut Rng) -> Plan>>,
+    /// property under check: a run stops early only on a violation of this property (others are
+    /// recorded as cross observations and the run goes on)
+    pub target: Option<String>,
 }
 
 pub struct RunResult {
@@ -244,6 +247,9 @@ pub fn run_one(opts: RunOpts) -> RunResult {
         crashes_done: 0,
         stall_pct,
         cooperative: false,
+        aged: None,
+        part_weight: *rng.pick(&[25u64, 25, 3]),
+        target: opts.target.clone(),
         rng: Rng::new(mix(opts.seed, 77)),
         rec_cache: vec![None; n_hashes],
         notified: vec![],
@@ -299,12 +305,24 @@ pub fn run_one(opts: RunOpts) -> RunResult {
                 for s in w.sets.iter_mut() {
                     s.active = false;
                 }
+                if let Some(a) = w.cfg.age_pending_secs {
+                    if w.age_pending_records(a) {
+                        w.aged = Some(a);
+                        w.ev(|| format!("AGED stored pending records by {a}s"));
+                    } else {
+                        w.aged = None;
+                    }
+                }
                 w.lifetime += 1;
                 if w.lifetime > 8 {
                     break;
                 }
             }
             End::Done => {
+                let capped = w.inconclusive.iter().any(|x| x == "step cap reached");
+                if capped {
+                    break;
+                }
                 if probes_left > 0 && w.violations.is_empty() {
                     // C09: restart, then a fresh fully funded probe set for every hash
                     let done = crate::probe::add_probe(&mut w, 3 - probes_left);
@@ -504,6 +522,24 @@ fn enabled_steps(w: &World, mgr_up: bool, script: &Option<Script>) -> Vec<(Step,
         let mut first = true;
         for (u, h) in w.htlcs.iter().enumerate() {
             if h.state == HState::Planned {
+                // retry sets: the first HTLC waits until nothing of that hash is held any more,
+                // the others until the first has been delivered
+                match h.spec.gate {
+                    crate::gen::Gate::None => {}
+                    crate::gen::Gate::HashIdle => {
+                        if h.deliveries == 0 {
+                            let busy = h.hidx.map(|i| !w.held(i).is_empty() || w.htlcs.iter().any(|x| x.hidx == Some(i) && x.state == HState::Planned && x.spec.gate == crate::gen::Gate::None && x.deliveries == 0)).unwrap_or(false);
+                            if busy {
+                                continue;
+                            }
+                        }
+                    }
+                    crate::gen::Gate::After(uid) => {
+                        if h.deliveries == 0 && w.htlcs.iter().any(|x| x.spec.uid == uid && x.deliveries == 0) {
+                            continue;
+                        }
+                    }
+                }
                 let wgt = if first { 30 } else { 4 };
                 first = false;
                 v.push((Step::Deliver(u), wgt));
@@ -563,12 +599,15 @@ fn enabled_steps(w: &World, mgr_up: bool, script: &Option<Script>) -> Vec<(Step,
         if p.status == PartStatus::Pending {
             let hi = w.hash_idx_of_hex(&p.hash_hex);
             let rec = hi.map(|i| w.hashes[i].recipient).unwrap_or(Recipient::FailAll);
+            // some runs have sticky parts (they stay pending for long): more overlap of a live
+            // part with whatever the plugin does next
+            let pw = if w.cooperative || scripted { 25 } else { w.part_weight };
             match rec {
-                Recipient::Settle => v.push((Step::ResolvePart(k, true), 25)),
-                Recipient::FailAll => v.push((Step::ResolvePart(k, false), 25)),
+                Recipient::Settle => v.push((Step::ResolvePart(k, true), pw)),
+                Recipient::FailAll => v.push((Step::ResolvePart(k, false), pw)),
                 Recipient::Mixed => {
-                    v.push((Step::ResolvePart(k, true), 10));
-                    v.push((Step::ResolvePart(k, false), 15));
+                    v.push((Step::ResolvePart(k, true), pw * 2 / 5 + 1));
+                    v.push((Step::ResolvePart(k, false), pw * 3 / 5 + 1));
                 }
             }
         }
@@ -758,8 +797,14 @@ async fn lifetime(shared: Shared, local_pk: secp256k1::PublicKey, rng: &mut Rng,
             }
             monitors::after_window(&mut w, tr);
             w.window_calls.clear();
-            if !w.violations.is_empty() && script.is_none() {
-                return End::Done;
+            if script.is_none() && !w.violations.is_empty() {
+                let stop = match &w.target {
+                    Some(t) => w.violations.iter().any(|v| v.property == t.as_str()) || w.violations.len() >= 16,
+                    None => true,
+                };
+                if stop {
+                    return End::Done;
+                }
             }
             if w.step >= w.cfg.max_steps as u64 {
                 w.inconclusive.push("step cap reached".into());
@@ -813,8 +858,10 @@ async fn lifetime(shared: Shared, local_pk: secp256k1::PublicKey, rng: &mut Rng,
                     let _ = probe_phase;
                     return End::Done;
                 }
-                idle_advanced_ms += 61_000;
-                Step::Advance(61_000)
+                // jump in poll-interval sized steps; larger ones when the MPP timeout is long
+                let jump = 61_000u64.max(mpp_ms / 3 + 1);
+                idle_advanced_ms += jump;
+                Step::Advance(jump)
             }
         };
         // execute
